@@ -262,7 +262,7 @@ func collectionCentroidArea(c orb.Collection) (orb.Point, float64) {
 	}
 
 	for _, g := range c {
-		if g.Dimensions() != max {
+		if g == nil || g.Dimensions() != max {
 			continue
 		}
 
@@ -288,7 +288,7 @@ func collectionCentroidArea(c orb.Collection) (orb.Point, float64) {
 // of the members of that dimension, nested collections included.
 func flattenLowDim(c orb.Collection, dim int, mp *orb.MultiPoint, mls *orb.MultiLineString) {
 	for _, g := range c {
-		if g.Dimensions() != dim {
+		if g == nil || g.Dimensions() != dim {
 			continue
 		}
 
@@ -310,6 +310,10 @@ func flattenLowDim(c orb.Collection, dim int, mp *orb.MultiPoint, mls *orb.Multi
 func maxDim(c orb.Collection) int {
 	max := 0
 	for _, g := range c {
+		if g == nil {
+			continue
+		}
+
 		if d := g.Dimensions(); d > max {
 			max = d
 		}
